@@ -116,9 +116,9 @@ S1 = ml.mock_station_from_geoid("s1", CELL_B, chargers={"LEVEL_2": 1}, env=ENV0)
 B0 = ml.mock_base_from_geoid("b0", CELL_B, station_id="s1", stall_count=3)
 B1 = ml.mock_base_from_geoid("b1", CELL_E, station_id=None, stall_count=1)
 B2 = ml.mock_base_from_geoid("b2", CELL_F, station_id="s0", stall_count=1)  # a base whose station stands elsewhere (s0 @ A)
-R0 = ml.mock_request_from_geoids("r0", CELL_C, CELL_D, value=7)
+R0 = ml.mock_request_from_geoids("r0", CELL_C, CELL_D, value=7, passengers=2)  # two passengers: one request, one event
 R1 = ml.mock_request_from_geoids("r1", CELL_C, CELL_F, value=5)
-RB = ml.mock_request_from_geoids("rb", CELL_C, CELL_D, value=9)  # the request already on board
+RB = ml.mock_request_from_geoids("rb", CELL_C, CELL_D, value=9, passengers=2)  # the request already on board
 V0 = ml.mock_vehicle_from_geoid("v0", CELL_A)
 V1 = ml.mock_vehicle_from_geoid("v1", CELL_A)
 V2 = ml.mock_vehicle_from_geoid("v10", CELL_A)  # lexicographic trap: "v10" < "v2"
@@ -347,6 +347,7 @@ def build_world(
     tot_gas=1,
     s1_tot=1,
     s1_g=0,
+    r0_zero=False,
     sim_time=None,
     dt=None,
     price_l2=None,
@@ -430,6 +431,10 @@ def build_world(
         sim = sso.add_vehicle_safe(sim, v).unwrap()
     if r0_present:
         r0 = replace(R0, membership=MEMBERSHIPS[r0_memb])
+        if r0_zero:
+            # a zero-length trip: destination == origin
+            r0 = replace(r0, destination_position=r0.position,
+                         passengers=tuple(replace(p, destination=r0.position.geoid) for p in r0.passengers))
         if r0_disp == 1:
             r0 = r0.assign_dispatched_vehicle("v0", T0)
         elif r0_disp == 2:
